@@ -8,6 +8,7 @@
 -/
 import SvgVerif.Proofs.DocLoop
 import SvgVerif.Proofs.DocCascade
+import SvgVerif.Proofs.DocTotal
 import Batteries.Data.List.Perm
 namespace Svg.Doc
 set_option linter.unusedSectionVars false
@@ -297,7 +298,7 @@ theorem C10_enter_raise_kinds (cfg : Cfg K) (styles : Dict) (f : Frame K) (tag :
 theorem C10_bad_transform_ignored (cfg : Cfg K) (styles : Dict) (f : Frame K) (tag : String)
     (attrs : List (String × String)) (t : String)
     (ht : Dict.get (compileAttrs styles f.vals.d tag attrs) "transform" = some t)
-    (hbad : (cfg.tfErr [TfPiece.text t]).isSome = true) :
+    (hbad : rejects cfg t = true) :
     (compileVals cfg styles f tag attrs).tf = f.vals.tf := by
   unfold compileVals ownTf validAttrs
   simp only [ht, hbad, if_true, Dict.get_erase_self']
@@ -369,6 +370,268 @@ theorem C10_sibling_frame (cfg : Cfg K) (defs : List (String × Xml)) (fuel : Na
     rw [specList]
     simp only [hrun, hsty, List.append_assoc]
   · exact (specList_append cfg defs fuel active styles f pre post hpre).1
+
+end
+
+/-! ### 5. no abort: the whole document model, transform parser included -/
+
+section Total
+variable {K : Type} [Add K] [Sub K] [Mul K] [Div K] [Neg K] [Zero K] [One K] [BEq K]
+  [LT K] [DecidableLT K] [LE K] [DecidableLE K] [NatCast K] [Trig K] [Color.PyRound K]
+
+theorem tfMatrix_num (c c' : Cfg K) (h : c.num = c'.num) (ps : List (TfPiece K)) :
+    tfMatrix c ps = tfMatrix c' ps := by
+  unfold tfMatrix
+  rw [h]
+
+theorem mkCfg_tfErr (ppi : K) (num : NumLit → K) (ps : List (TfPiece K)) :
+    (mkCfg ppi num).tfErr ps = errOf (tfMatrix (mkCfg ppi num) ps) := by
+  rw [tfMatrix_num (mkCfg ppi num) ({ ppi := ppi, num := num } : Cfg K) rfl]
+  unfold mkCfg
+  simp only []
+  cases tfMatrix ({ ppi := ppi, num := num } : Cfg K) ps <;> rfl
+
+/-- the configuration the check runs with -/
+abbrev liveCfg (ppi : K) (num : NumLit → K) : Cfg K := mkCfg ppi num
+
+theorem tfErr_single (ppi : K) (num : NumLit → K) (p : TfPiece K) :
+    (liveCfg ppi num).tfErr [p] = pieceErr (liveCfg ppi num) p := by
+  rw [mkCfg_tfErr, tfMatrix_eq_fold]
+  simp only [List.foldlM_cons, List.foldlM_nil, pieceErr]
+  cases stepFn (liveCfg ppi num) Mat.identity p <;> rfl
+
+theorem rejects_false_fine (ppi : K) (num : NumLit → K) (t : String)
+    (h : rejects (liveCfg ppi num) t = false) : PieceFine (liveCfg ppi num) (.text t) := by
+  unfold rejects at h
+  rw [tfErr_single] at h
+  unfold PieceFine
+  cases hp : pieceErr (liveCfg ppi num) (TfPiece.text t) with
+  | none => exact Or.inl rfl
+  | some e =>
+    rw [hp] at h
+    cases e <;> first | (exact Or.inr rfl) | (simp at h)
+
+theorem validAttrs_transform (cfg : Cfg K) (a : Dict) (t : String)
+    (h : Dict.get (validAttrs cfg a) "transform" = some t) : rejects cfg t = false := by
+  unfold validAttrs at h
+  split at h
+  · rename_i t0 h0
+    split at h
+    · rw [Dict.get_erase_self'] at h; cases h
+    · rename_i hr
+      rw [h0] at h
+      injection h with h
+      subst h
+      simpa using hr
+  · rename_i h0
+    rw [h0] at h; cases h
+
+theorem compileVals_fine (ppi : K) (num : NumLit → K) (styles : Dict) (f : Frame K) (tag : String)
+    (attrs : List (String × String)) (hf : ScopeFine (liveCfg ppi num) f.vals) :
+    ScopeFine (liveCfg ppi num) (compileVals (liveCfg ppi num) styles f tag attrs) := by
+  unfold compileVals ownTf ScopeFine
+  simp only []
+  cases ht : Dict.get (validAttrs (liveCfg ppi num) (compileAttrs styles f.vals.d tag attrs)) "transform" with
+  | none => exact hf
+  | some t =>
+    intro p hp
+    simp only [Option.getD_some, List.mem_append, List.mem_singleton] at hp
+    rcases hp with h | h
+    · exact hf p h
+    · rw [h]; exact rejects_false_fine ppi num t (validAttrs_transform _ _ t ht)
+
+/-- what `svg`/`use` add to the transform are generated matrices, which always parse -/
+theorem svgEnter_fine (cfg : Cfg K) (n : Bool) (vals v : Vals K) (w h w' h' : Dim K)
+    (e : svgEnter cfg n vals w h = .ok v w' h') (hf : ScopeFine cfg vals) : ScopeFine cfg v := by
+  unfold svgEnter at e
+  simp only [] at e
+  repeat' split at e
+  all_goals first
+    | (cases e; done)
+    | (injection e with e1 _ _; subst e1
+       intro p hp
+       first
+         | exact hf p hp
+         | (simp only [Option.getD_some, List.mem_append, List.mem_singleton] at hp
+            rcases hp with h1 | h1
+            · exact hf p h1
+            · rw [h1]; exact mat_fine cfg _))
+
+theorem useEnter_fine (cfg : Cfg K) (vals v : Vals K)
+    (e : useEnter cfg vals = .ok v) (hf : ScopeFine cfg vals) : ScopeFine cfg v := by
+  unfold useEnter at e
+  simp only [] at e
+  repeat' split at e
+  all_goals first
+    | (cases e; done)
+    | (injection e with e1; subst e1
+       intro p hp
+       first
+         | exact hf p hp
+         | (simp only [Option.getD_some, List.mem_append, List.mem_singleton] at hp
+            rcases hp with h1 | h1
+            · exact hf p h1
+            · rw [h1]; exact mat_fine cfg _))
+
+theorem dispatch_fine (ppi : K) (num : NumLit → K) (f : Frame K) (vals : Vals K) (tag : String)
+    (hv : ScopeFine (liveCfg ppi num) vals) :
+    ScopeFine (liveCfg ppi num) (dispatch (liveCfg ppi num) f vals tag).1.vals ∧
+    (∀ e, (dispatch (liveCfg ppi num) f vals tag).2.2 = .raised e → e = .deferred) := by
+  constructor
+  · unfold dispatch
+    repeat' split
+    all_goals first
+      | exact hv
+      | (rename_i e; exact svgEnter_fine _ _ _ _ _ _ _ _ e hv)
+      | (rename_i e; exact useEnter_fine _ _ _ e hv)
+      | (intro p hp; exact hv p hp)
+  · intro e h
+    rcases dispatch_raise_kinds (liveCfg ppi num) f vals tag e h with h1 | ⟨ps, h1⟩
+    · exact h1
+    · -- the only transform the container constructors parse is the scope's own
+      unfold dispatch at h
+      split at h
+      · cases h
+      split at h
+      · simp only [] at h
+        injection h with h
+        cases hv' : (liveCfg ppi num).tfErr (vals.tf.getD []) with
+        | none => rename_i hc; rw [hv'] at hc; simp at hc
+        | some e' =>
+          rw [hv'] at h
+          simp only [Option.getD_some] at h
+          subst h
+          rw [mkCfg_tfErr, tfMatrix_eq_fold] at hv'
+          exact fold_err_kinds _ _ _ _ hv hv'
+      split at h
+      · split at h
+        · cases h
+        · split at h <;> cases h
+        · rename_i hsv; simp only [] at h; injection h with h; subst h
+          exact svgEnter_raised _ _ vals f.w f.h _ hsv
+      split at h
+      · cases h
+      split at h
+      · cases h
+      split at h
+      · split at h
+        · cases h
+        · rename_i hu; simp only [] at h; injection h with h; subst h
+          exact useEnter_raised _ vals _ hu
+      split at h
+      · cases h
+      · cases h
+
+theorem enter_fine (ppi : K) (num : NumLit → K) (styles : Dict) (f : Frame K) (tag : String)
+    (attrs : List (String × String)) (hf : ScopeFine (liveCfg ppi num) f.vals) :
+    ScopeFine (liveCfg ppi num) (enter (liveCfg ppi num) styles f tag attrs).1.vals ∧
+    (∀ e, (enter (liveCfg ppi num) styles f tag attrs).2.2 = .raised e → e = .deferred) := by
+  unfold enter
+  split
+  · exact ⟨hf, fun e h => by cases h⟩
+  · exact dispatch_fine ppi num f _ tag (compileVals_fine ppi num styles f tag attrs hf)
+
+mutual
+theorem fine_node (ppi : K) (num : NumLit → K) (defs : List (String × Xml)) (fuel : Nat) (active : List String)
+    (styles : Dict) (f : Frame K) (x : Xml) (e : PyErr)
+    (hf : ScopeFine (liveCfg ppi num) f.vals) (hb : Budget defs fuel active)
+    (h : (specNode (liveCfg ppi num) defs fuel active styles f x).status = .raised e) : e = .deferred := by
+  match x with
+  | .node tag attrs text kids =>
+    have hen := enter_fine ppi num styles f tag attrs hf
+    rw [specNode] at h
+    rcases he : enter (liveCfg ppi num) styles f tag attrs with ⟨f', outs, st⟩
+    rw [he] at h hen
+    simp only [] at hen
+    cases st with
+    | returned => cases h
+    | raised e' => simp only [] at h; cases h; exact hen.2 _ rfl
+    | running =>
+      simp only [] at h
+      have ih1 := fine_list ppi num defs fuel active styles f' kids e hen.1 hb
+      generalize specList (liveCfg ppi num) defs fuel active styles f' kids = r1 at ih1 h
+      cases hr1 : r1.status with
+      | returned => rw [hr1] at h; cases h
+      | raised e' => rw [hr1] at h; simp only [] at h; cases h; exact ih1 hr1
+      | running =>
+        rw [hr1] at h
+        simp only [] at h
+        cases hut : useTarget defs active tag attrs with
+        | none => rw [hut] at h; cases h
+        | some it =>
+          obtain ⟨i, target⟩ := it
+          rw [hut] at h
+          simp only [] at h
+          obtain ⟨hi, hk⟩ := useTarget_spec defs active tag attrs i target hut
+          cases fuel with
+          | zero => exact (budget_zero_absurd defs active i hb hi hk).elim
+          | succ n =>
+            simp only [] at h
+            have ih2 := fine_node ppi num defs n (active ++ [i]) r1.styles f' target e hen.1
+              (budget_step defs n active i hb hi hk)
+            generalize specNode (liveCfg ppi num) defs n (active ++ [i]) r1.styles f' target = r2 at ih2 h
+            cases hr2 : r2.status with
+            | returned => rw [hr2] at h; cases h
+            | running => rw [hr2] at h; cases h
+            | raised e' => rw [hr2] at h; simp only [] at h; cases h; exact ih2 hr2
+termination_by (fuel, sizeOf x)
+
+theorem fine_list (ppi : K) (num : NumLit → K) (defs : List (String × Xml)) (fuel : Nat) (active : List String)
+    (styles : Dict) (f : Frame K) (l : List Xml) (e : PyErr)
+    (hf : ScopeFine (liveCfg ppi num) f.vals) (hb : Budget defs fuel active)
+    (h : (specList (liveCfg ppi num) defs fuel active styles f l).status = .raised e) : e = .deferred := by
+  match l with
+  | [] => rw [specList] at h; cases h
+  | k :: ks =>
+    rw [specList] at h
+    have ih1 := fine_node ppi num defs fuel active styles f k e hf hb
+    generalize specNode (liveCfg ppi num) defs fuel active styles f k = r1 at ih1 h
+    cases hr1 : r1.status with
+    | returned => rw [hr1] at h; cases h
+    | raised e' => rw [hr1] at h; simp only [] at h; cases h; exact ih1 hr1
+    | running =>
+      rw [hr1] at h
+      simp only [] at h
+      exact fine_list ppi num defs fuel active r1.styles f ks e hf hb h
+termination_by (fuel, sizeOf l)
+end
+
+/-- **No abort.** With the transform parser of stage B as the constructors' parser, for every
+    document (any nesting, any attribute text, any `use` graph) whose caller-supplied transform
+    is acceptable: the document layer of `SVG.parse` returns — the only other outcome the model
+    has is the marker of a length the library keeps symbolic, which is not an exception. No
+    ValueError, TypeError, IndexError or RecursionError can leave the loop or a container
+    constructor. -/
+theorem C10_no_abort (ppi : K) (num : NumLit → K) (f : Frame K) (roots : List Xml)
+    (hf : ScopeFine (liveCfg ppi num) f.vals) :
+    (∃ shapes, parseDoc (liveCfg ppi num) f roots = .ok shapes) ∨
+    parseDoc (liveCfg ppi num) f roots = .error .deferred := by
+  have href : parseDoc (liveCfg ppi num) f roots = specDoc (liveCfg ppi num) f roots := by
+    unfold parseDoc specDoc events
+    obtain ⟨ho, hst, _⟩ := run_semiList (liveCfg ppi num) (idTable roots) ((idTable roots).length + 1) [] roots (initSt f) rfl
+    simp only []; rw [hst, ho]; rfl
+  rw [href]
+  unfold specDoc
+  simp only []
+  split
+  · exact Or.inl ⟨_, rfl⟩
+  · exact Or.inl ⟨_, rfl⟩
+  · rename_i e hst
+    right
+    have hb : Budget (idTable roots) ((idTable roots).length + 1) [] :=
+      ⟨List.nodup_nil, by simp, by simp [keys]⟩
+    rw [fine_list ppi num _ _ _ _ f roots e hf hb hst]
+
+/-- the premise is satisfiable: no caller transform at all -/
+example (ppi : K) (num : NumLit → K) (w h : Dim K) :
+    ScopeFine (liveCfg ppi num) (initFrame "black" none w h).vals := by
+  intro p hp; simp [initFrame] at hp
+
+end Total
+
+section
+variable {K : Type} [Add K] [Sub K] [Mul K] [Div K] [Neg K] [Zero K] [One K] [BEq K]
+  [LT K] [DecidableLT K] [LE K] [DecidableLE K] [NatCast K]
 
 end
 end Svg.Doc
